@@ -111,6 +111,10 @@ func (w *moduleService) stop(_ error) error {
 
 		err = services.StopAndAwaitTerminated(context.Background(), w.service)
 	} else {
+		// The service is not running anymore, but it may still be stopping on its own (its running
+		// function has returned and its stopping function is in progress). Wait for it, otherwise this
+		// module is reported as stopped, and the modules it depends on are stopped, while it still runs.
+		_ = w.service.AwaitTerminated(context.Background())
 		err = w.service.FailureCase()
 	}
 
